@@ -36,7 +36,7 @@ CONSTANTS TagNames,     \* names the maintainer may create
           BumpTo,       \* VERSION strings the maintainer may switch to between invocations ({} = never)
           MaxCommits, MaxHist
 
-VARIABLES tags,      \* name -> [c |-> commit, k |-> kind, s |-> name whose tag object it was created from, or ""]
+VARIABLES tags,      \* name -> [c |-> commit, k |-> kind, s |-> name stored in the tag object when the ref was made from another tag's object, else ""]
           head,      \* commit HEAD resolves to
           ncommits,  \* commits are 1..ncommits
           dirty,     \* "clean" or a member of DirtyKinds
@@ -93,7 +93,8 @@ IsMajorName(x) == \E r \in DOMAIN ReqTable : ReqTable[r].valid /\ ReqTable[r].ma
 Alias(n, m) == /\ Idle /\ n \notin DOMAIN tags /\ m \in DOMAIN tags /\ tags[m].k = "annotated"
                /\ \/ IsMajorName(n) /\ NameTable[m].full
                   \/ IsMajorName(m) /\ ~NameTable[n].parsable
-               /\ tags' = Extend(tags, n, [c |-> tags[m].c, k |-> "annotated", s |-> m])
+               /\ tags' = Extend(tags, n, [c |-> tags[m].c, k |-> "annotated",
+                                            s |-> IF tags[m].s = "" THEN m ELSE tags[m].s])   \* name inside the shared object
                /\ Log([op |-> "alias", name |-> n, src |-> m])
                /\ UNCHANGED <<head, ncommits, dirty, version, pc, run>>
 
@@ -115,7 +116,10 @@ Zero == [maj |-> 0, min |-> 0, pat |-> 0, pre |-> 0]
 \* tag.go:88-153  largestTagSemver: names with fewer than three dot-separated parts are skipped, every
 \* other name must parse (lenient NewVersion) or the run fails; the largest version of the requested
 \* major, starting from v0.0.0.
-Considered == {n \in DOMAIN tags : NameTable[n].dots3}
+\* tag.go:101-121: for an annotated tag the name is read from the tag OBJECT (tag.Name), not from the ref;
+\* the two differ exactly for refs made from another tag's object (Alias)
+SeenName(n) == IF tags[n].s = "" THEN n ELSE tags[n].s
+Considered == {x \in {SeenName(n) : n \in DOMAIN tags} : NameTable[x].dots3}
 LargestFails == \E n \in Considered : ~NameTable[n].parsable
 Largest(major) ==
   LET S == {n \in Considered : NameTable[n].maj = major}
